@@ -205,7 +205,7 @@ func TestC33(t *testing.T) {
 	}
 	seed := ev.Seed()
 	// (1) limits, user change, last-invocation rule: bounded-exhaustive
-	stride := uint64(scale(3, 4))
+	stride := uint64(scale(3, 1))
 	enumerate(t, c, "C33", limitProfiles(), limitAlphabet(), scale(2, 3), func(idx uint64) bool { return mixSeed(idx^seed)%stride == 0 }, c33Nontrivial, true)
 
 	// (2) long histories around the 128-request cap and large MaxAuthTries
